@@ -231,6 +231,7 @@ def _helpers_inlined(pkg, file, cls, value):
 
 def _r7(ctx):
     pkg = package(ctx.tree)
+    from .c20 import straighten
     n = 0
     for f in pkg.files:
         if not f.startswith("naunet/") or f.startswith("naunet/examples/") or not f.endswith(".py"):
@@ -244,7 +245,9 @@ def _r7(ctx):
                 if isinstance(ch, ast.ClassDef):
                     visit(ch, ch.name)
                 elif isinstance(ch, (ast.FunctionDef, ast.AsyncFunctionDef)):
-                    visit(ch, f"{qual}.{ch.name}" if qual else ch.name)
+                    # one store per statement: tuple assignments split, `if c: T = a else: T = b` as `T = a if c else b`, a value hoisted
+                    # into a once-used local back where it is stored
+                    visit(straighten(ch), f"{qual}.{ch.name}" if qual else ch.name)
                 else:
                     if isinstance(ch, (ast.Assign, ast.AugAssign, ast.AnnAssign)):
                         tgts = ch.targets if isinstance(ch, ast.Assign) else [ch.target]
@@ -299,7 +302,7 @@ def _r7(ctx):
     for attr, store in (("rate_modifier", "_rate_modifier"), ("ode_modifier", "_ode_modifier")):
         ci = pkg.cls("Network")
         getters = [fn for fn in ci.node.body if isinstance(fn, ast.FunctionDef) and fn.name == attr and any(ast.unparse(d) == "property" for d in fn.decorator_list)]
-        rets = [x for x in ast.walk(getters[0]) if isinstance(x, ast.Return)] if len(getters) == 1 else []
+        rets = [x for x in ast.walk(straighten(getters[0])) if isinstance(x, ast.Return)] if len(getters) == 1 else []
         def bare(v):
             """the table a whole-copy expression carries: X for X, X.copy(), dict(X), copy.deepcopy(X)"""
             while isinstance(v, ast.Call) and _whole_copy(v):
@@ -621,8 +624,10 @@ def _r2(ctx):
         for fn_ in rc.node.body:
             if isinstance(fn_, ast.FunctionDef) and fn_.name == "idxfromfile" and any(ast.unparse(d).endswith(".setter") for d in fn_.decorator_list):
                 has_int_setter = any(isinstance(c, ast.Call) and isinstance(c.func, ast.Name) and c.func.id == "int" for c in ast.walk(fn_))
+    from .c20 import straighten_module
     for f in pkg.files:
-        mod = pkg.modules[f]
+        # one store per statement, the value where it is stored (a value / an iterable hoisted into a once-used local is put back)
+        mod = straighten_module(pkg, f) if "idxfromfile" in ctx.tree.read(f) else pkg.modules[f]
         for node in ast.walk(mod):
             if isinstance(node, ast.Assign):
                 for t in node.targets:
@@ -812,6 +817,14 @@ def _r3(ctx):
     # (the decision may have been moved into a helper of the class: put back first; _prepare_ode_content stays the call the rule is about)
     fn = pkg.expanded("TemplateLoader", "render", keep=("_prepare_ode_content", "_prepare_renorm_content", "_render", "_prepare_contents"))
     ctx.saw(FILE, "TemplateLoader.render")
+    # (`ode = <local of the helper>` left behind by putting a helper back names the same value again: one call, one local)
+    try:
+        import copy
+        from ..normalize import coalesce_copies
+        from .c20 import _untuple
+        fn = coalesce_copies(_untuple(copy.deepcopy(fn)))
+    except (RecursionError, ImportError):
+        pass
     fl = Flow(fn, FILE)
     calls = [f for f in fl.facts if f.kind == "call" and f.target == "reindex"]
     prep = [(v, loops, g, line, seq) for lst in fl.assigns.values() for v, loops, g, line, seq in lst if v[0] == "meth" and v[2] == "_prepare_ode_content"]
